@@ -81,14 +81,31 @@ def rule_tacc(prog):
     if adt is None:
         return [bad('TACC', 'TACC|anchor', 'anchor lost: public enum value::Value not found')]
     accs = accessors(prog)
-    for b in accs:
+    for b0 in accs:
+        first = _tacc_one(prog, adt, b0)
+        if any(o.status == 'violated' for o in first):
+            v = prog.view(b0)       # the variant switch may sit in a private helper shared by several accessors
+            if v is not b0:
+                second = _tacc_one(prog, adt, v)
+                if not any(o.status == 'violated' for o in second):
+                    for o in second:
+                        o.what += ' [read with helpers inlined]'
+                    first = second
+        obs += first
+    obs.append(floor('TACC', 'accessors', len(accs), 6, 'decimal, integer, float, bool, string, list'))
+    return obs
+
+
+def _tacc_one(prog, adt, b):
+    obs = []
+    if True:
         short = b.name.split('::')[-1]
         key = 'TACC|%s' % short
         own = _own_variant(adt, b.locals[0]['ty'])
         vr = _variant_region(body=b, adt=adt)
         if own is None or vr is None:
             obs.append(bad('TACC', key, 'accessor %s: cannot determine its own variant / it does not switch on the variant of self' % b.name, b.where(), body=b.name))
-            continue
+            return obs
         sb, m, other = vr
         succ = _success_blocks(b, prog)
         accepting = set()
@@ -119,7 +136,6 @@ def rule_tacc(prog):
                 obs.append(ok('TACC', k2, '%s() returns the payload of %s moved out unchanged' % (short, own), b.where()))
             else:
                 obs.append(bad('TACC', k2, '%s() does not return the unchanged payload of %s' % (short, own), b.where(), body=b.name))
-    obs.append(floor('TACC', 'accessors', len(accs), 6, 'decimal, integer, float, bool, string, list'))
     return obs
 
 
